@@ -208,6 +208,10 @@ def run(ctx):
     # asyncio: tasks run in copies of the context; a worker thread may run with the caller's context (asyncio.to_thread)
     for sizes, tt in (([6, 1, 3], 0), ([2, 2], 4), ([1, 5, 2, 4], 3), ([3], 2)):
         tcases.append({'aio': sizes, 'to_thread': tt, 'jobs': [[s, 0, True] for s in sizes] + [[1, 0, True]]})
+    # tasks holding `with prof:` windows across their suspension points, one of them leaving its window by an exception
+    for specs, order in (([[3, 1], [4, -1]], [0, 1, 0, 1, 0, 1, 1, 1, 1]), ([[2, 0], [3, -1], [3, 2]], [1, 2, 0, 1, 2, 1, 2, 1, 2, 2]),
+                         ([[4, -1], [2, 1]], [0, 1, 1, 0, 0, 0, 0, 0])):
+        tcases.append({'withblocks': specs, 'order': order, 'jobs': [[n, 0, True] for n, _f in specs]})
     ctx.log('threads: %d runs' % len(tcases))
     tres = corelib.run_real(build, tcases, worker='c13_worker.py')
     tbad = 0
